@@ -185,7 +185,7 @@ def main(run):
                                     run.sample({**replay, "result": got})
     # ---------------- RiverWrapper
     for rep in range(90 if not thorough else 400):
-        kind = ["dict", "float", "int", "bool", "str", "npfloat", "str"][rep % 7]
+        kind = ["dict", "float", "int", "bool", "str", "npfloat", "str", "npbool", "npint", "npfloat32"][rep % 10]
         labels = rnd.sample(["cat", "dog", "bird", "fish", "x", "y", "z"], [2, 3, 5, 7][rep % 4])
 
         def pred(x, kind=kind, labels=labels):
@@ -200,6 +200,12 @@ def main(run):
                 return s
             if kind == "bool":
                 return s % 2 == 0
+            if kind == "npbool":
+                return np.bool_(s % 2 == 0)
+            if kind == "npint":
+                return np.int64(s)
+            if kind == "npfloat32":
+                return np.float32(s / 4.0)
             return labels[s % len(labels)]
         w = RiverWrapper(pred)
         seen_labels = []
